@@ -482,6 +482,15 @@ func genTxn(t *rapid.T, m *Model, recent []uint32, cfg TxnCfg) TxnSpec {
 	}
 	if cfg.Rollback && rapid.IntRange(0, 3).Draw(t, "rollback") == 0 {
 		spec.FailAt = rapid.IntRange(0, len(spec.Steps)-1).Draw(t, "fail-at")
+		inserted := false
+		for _, st := range spec.Steps[:spec.FailAt+1] {
+			if st.Kind == SInsert || st.Kind == SInsertKey || st.Kind == SUpsertKey {
+				inserted = true
+			}
+		}
+		if !inserted && rapid.IntRange(0, 2).Draw(t, "body-panics") == 0 {
+			spec.Panic = true
+		}
 	}
 	if cfg.FailInsert && KFActive("f22-swallowed-insert-failure") {
 		// known finding: a failing insert whose error is swallowed by a committing body.
